@@ -2,9 +2,11 @@
 C05 — Built probes and plane waves are normalized.
 
 Model of `Probe._calculate_array` (abtem/waves.py): reciprocal-space array
-  kernel (scan positions, `fft_shift_kernel`)  →  · aperture  →  tilt.apply (metadata only, array unchanged)
-  →  · aberrations  →  `_WavesNormalization` (divide by √Σ|·|² over the last two axes)  →  ifft2
-as a pointwise product followed by the *generated* normalisation formulas (`Gen.ProbeR.normFactor`,
+  kernel (scan positions, `fft_shift_kernel`)  →  · aperture  →  · aberrations  →  tilt.apply (metadata + tiling only)
+  →  `_WavesNormalization` (divide by √Σ|·|² over the last two axes)  →  ifft2
+The ORDER of these operations is generated too (`Gen.Probe.probeOps`: the top-level calls of `Probe._calculate_array` in source
+order) and interpreted by `runOps`; `probeSpectrumOps_eq` proves that this order normalises AFTER every factor — moving the
+normalisation in front of a factor breaks that proof.  The factors themselves use the *generated* normalisation formulas (`Gen.ProbeR.normFactor`,
 `Gen.ProbeC.normDivide`), and of `PlaneWave._calculate_array` (constant `Gen.ProbeR.planeWaveValue (∏ gpts)` or ones).
 The aperture pieces (`soft_aperture` clip expression and forced zero-angle values, `hard_aperture` test), the aberration
 phase `complex_exponential(-χ)` and the shift-kernel phase are generated from abtem/transfer.py and abtem/core/fft.py.
@@ -16,6 +18,7 @@ non-zero ensemble weight, any tilt (the tilt does not touch the array).
 import AbtemVerif.Lib.WaveOptics
 import AbtemVerif.Lib.SmallDFT
 import AbtemVerif.Lib.DFT2
+import AbtemVerif.Gen.Probe
 import AbtemVerif.Gen.ProbeR
 import AbtemVerif.Gen.ProbeC
 import AbtemVerif.Gen.FftShiftR
@@ -109,9 +112,34 @@ theorem probeSpectrum_energy_pos (kernel : ι → ℂ) (A : ι → ℝ) (aberr :
   unfold probeSpectrum
   exact mul_ne_zero (mul_ne_zero hk (by exact_mod_cast hA)) hab
 
-/-- the array `Probe.build` returns (real space) -/
+/-- what one top-level call of `Probe._calculate_array` does to the reciprocal-space array (`Waves(...)`, `tilt.apply` and the final
+`ensure_real_space` do not change it; the first call produces the kernel the fold starts from) -/
+noncomputable def applyOp (A : ι → ℝ) (aberr : ι → ℂ) (op : String) (y : ι → ℂ) : ι → ℂ :=
+  if op = "waves_builder.aperture.apply" then fun k => y k * (A k : ℂ)
+  else if op = "waves_builder.aberrations.apply" then fun k => y k * aberr k
+  else if op = "waves.normalize" then normalize y
+  else y
+
+/-- the reciprocal-space array obtained by running the operations in the given order on the scan kernel -/
+noncomputable def runOps (ops : List String) (kernel : ι → ℂ) (A : ι → ℝ) (aberr : ι → ℂ) : ι → ℂ :=
+  ops.foldl (fun y op => applyOp A aberr op y) kernel
+
+/-- With the order of operations the code has NOW (`Gen.Probe.probeOps`), the result is the normalisation of the complete product
+kernel · aperture · aberrations: the normalisation comes after every factor. -/
+theorem probeSpectrumOps_eq (kernel : ι → ℂ) (A : ι → ℝ) (aberr : ι → ℂ) :
+    runOps AbtemVerif.Gen.Probe.probeOps kernel A aberr = normalize (probeSpectrum kernel A aberr) := by
+  simp only [runOps, AbtemVerif.Gen.Probe.probeOps, applyOp, List.foldl_cons, List.foldl_nil]
+  simp
+  rfl
+
+/-- the pipeline starts by evaluating the scan kernel and ends with the inverse transform -/
+theorem probeOps_ends : AbtemVerif.Gen.Probe.probeOps.head? = some "waves_builder.scan_positions._evaluate_kernel" ∧
+    AbtemVerif.Gen.Probe.probeOps.getLast? = some "waves.ensure_real_space" := by
+  constructor <;> rfl
+
+/-- the array `Probe.build` returns (real space): the generated sequence of operations, then the inverse transform -/
 noncomputable def probeArray (P : FourierPair ι) (kernel : ι → ℂ) (A : ι → ℝ) (aberr : ι → ℂ) : ι → ℂ :=
-  P.Finv (normalize (probeSpectrum kernel A aberr))
+  P.Finv (runOps AbtemVerif.Gen.Probe.probeOps kernel A aberr)
 
 /-- Every built probe has unit total intensity in reciprocal space: any scan position (unit-modulus kernel), any
 aperture in which at least one pixel `k0` passes (the zero-angle pixel does, `probeAperture_zero_pixel`), any aberration
@@ -120,7 +148,7 @@ theorem probe_normalized (P : FourierPair ι) (kernel : ι → ℂ) (A : ι → 
     (hk : ∀ k, Complex.normSq (kernel k) = 1) (hA : A k0 ≠ 0) (hw : w ≠ 0) :
     energy (P.F (probeArray P kernel A (fun k => aberration w (chi k)))) = 1 := by
   unfold probeArray
-  rw [P.inv_right]
+  rw [P.inv_right, probeSpectrumOps_eq]
   apply normalize_unit_energy
   apply ne_of_gt
   apply probeSpectrum_energy_pos kernel A _ k0
